@@ -106,6 +106,7 @@ def run(tier, seed, broken_proof=False):
     rng = random.Random(seed + 909)
     count = 70 if tier == "quick" else 700
     violations = []
+    corr = []
     strata = Counter()
     evals = 0
     nontriv = set()
@@ -133,9 +134,9 @@ def run(tier, seed, broken_proof=False):
         for d in dis[:6]:
             c = d["case"]
             small = dict(c, queries=[c["queries"][d["query"]]] if d["query"] is not None else c["queries"][:1])
-            violations.append({"kind": "answer", "config": d["config"], "weakly": weakly, "case": small, "readable": opsprop.describe(small),
-                               "expected_model": d["model"], "actual": d["impl"], "found_by": "generated",
-                               "theorem_or_observable": "answer of %s vs definition" % d["config"]})
+            corr.append({"kind": "correspondence", "config": d["config"], "weakly": weakly, "case": small, "readable": opsprop.describe(small),
+                         "expected_model": d["model"], "actual": d["impl"], "found_by": "none",
+                         "theorem_or_observable": "model answer != implementation answer of %s (the postulate theorems of props/C09.v transfer to the code only through this agreement; no violated postulate instance was found)" % d["config"]})
         for c in cases:
             inst = insts[c["id"]]
             for cfg in cfgs:
@@ -161,6 +162,8 @@ def run(tier, seed, broken_proof=False):
                 samples.append({"base": [cond_text(x, c["sig"]) for x in c["base"]], "instances": [
                     (k, [cond_text(c["queries"][i], c["sig"]) for i in p], cond_text(c["queries"][cc_], c["sig"]) if isinstance(cc_, int) else "A unsat")
                     for (k, p, cc_) in inst[:8]]})
+    if not violations:
+        violations += corr[:6]      # only the correspondence is broken: reported and labelled as such
     return {
         "evaluations": evals, "distinct_nontrivial": len(nontriv),
         "rule": "per consistent base: direct-inference queries for every conditional and 6-10 formula triples (drawn from the base's formulas, literals, compounds) "
